@@ -40,6 +40,10 @@ CONFIGS = [
     {(K, 7): b"\x07", (K, 6): "Nur Name ü".encode(), CODE: bytes(8), (K, 0x20): b"\x02"},
     dict([((K, 1), (31337).to_bytes(4, "big")), ((K, 5), (12).to_bytes(2, "big")), ((K, 7), b"\x00"), ((K, 6), b"big")] + [((0x4000 + i, j), bytes([i, j]) * 20) for i in range(6) for j in range(4)]),
 ]
+# same project identifier as CONFIGS[0] / CONFIGS[5], other device settings / bus flag / security code
+CONFIGS.append({(K, 1): (10234).to_bytes(4, "big"), (K, 5): (5678).to_bytes(2, "big"), (K, 2): (6789).to_bytes(2, "big"), (K, 7): b"\x09", (K, 6): b"Testname", (K, 4): b"\x02", (K, 3): b"Dev2", CODE: bytes([0x46] * 8)})
+CONFIGS.append({(K, 1): (42).to_bytes(4, "big"), (K, 5): (1).to_bytes(2, "big"), (K, 2): (3).to_bytes(2, "big"), (K, 7): b"\x01", (K, 6): b"P", (K, 4): b"\x06", (K, 3): b"D (version 07)", (K, 0x20): b"\x01"})
+NCFG = len(CONFIGS)
 CUST_KEY = bytes([0x12, 0x34] * 8)
 
 
@@ -266,7 +270,7 @@ class Runner:
 
 ALPHA_SMALL = [("set", 0), ("set", 1), ("comments", 0), ("comments", 3), ("auth", 0, False), ("auth", 3, True), ("append", 3), ("insert0", 0), ("writeread",), ("writecheck",)]
 ALPHA_FULL = (
-    [("set", i) for i in range(8)] + [("comments", i) for i in range(8)] + [("auth", i, c) for i in range(8) for c in (False, True)]
+    [("set", i) for i in range(NCFG)] + [("comments", i) for i in range(NCFG)] + [("auth", i, c) for i in range(NCFG) for c in (False, True)]
     + [("append", t) for t in (0, 1, 2, 3)] + [("insert0", t) for t in (0, 1, 3)] + [("insertmid", t) for t in (0, 2)] + [("writeread",), ("writecheck",), ("writecheck",), ("comment", "set"), ("comment", "del")]
 )
 
@@ -323,7 +327,7 @@ def plan(tier, seed):
 
 def mandatory_bins(tier):
     return ["op_set", "op_comments", "op_auth", "op_append", "op_insert0", "op_insertmid", "op_writeread", "op_writecheck", "op_comment", "op_writeread_bec2", "op_writeread_bf3",
-            "typeless_component_before_configuration", "typeless_component_after_configuration", "two_different_configurations_in_a_row", "derive_after_derive_other_mode", "all_sequences_up_to_bound"]
+            "typeless_component_before_configuration", "typeless_component_after_configuration", "two_different_configurations_in_a_row", "derive_after_derive_other_mode", "all_sequences_up_to_bound", "every_ordered_pair_of_configurations"]
 
 
 def finish(agg, tier):
@@ -343,6 +347,18 @@ def run_shard(spec, ctx):
                 if not any(o[0] in ("set", "comments", "auth") for o in seq):
                     continue
                 run_sequence(ns, ctx, seq)
+        # every ordered pair (and triple with a write+read in between) of configurations for each derive / set operation
+        k = 0
+        for a in range(NCFG):
+            for b in range(NCFG):
+                for mk in (lambda i: ("comments", i), lambda i: ("set", i), lambda i: ("auth", i, False), lambda i: ("auth", i, True)):
+                    for mid in ((), (("writeread",),), (("insert0", 0),)):
+                        k += 1
+                        if k % NSH != spec["res"]:
+                            continue
+                        pre = (("auth", 0, True),) if mid and mid[0][0] == "writeread" else ()
+                        run_sequence(ns, ctx, pre + (mk(a),) + mid + (mk(b),) + (("writecheck",),) if pre else (mk(a),) + mid + (mk(b),))
+                        ctx.bin("every_ordered_pair_of_configurations")
         ctx.bin("all_sequences_up_to_bound")
         if spec["res"] == 0:
             ctx.sample({"sequence": [list(o) for o in (("insert0", 0), ("set", 0), ("set", 1), ("writeread",))]})
